@@ -16,8 +16,8 @@ spec/batch/Batch.tla models the function at three granularities that share every
 4. code -> spec: TestRace releases groups of callbacks simultaneously (real goroutines race inside record),
    logs only Release/Cancel/observations; BatchTrace.tla lets TLC infer the interleaving of the atomic steps.
 """
-import json
 import os
+import threading
 
 import verif
 
@@ -42,7 +42,8 @@ META = {
     "design_ref": "DESIGN.md 2 C10",
 }
 
-W = int(os.environ.get("VERIF_TLC_WORKERS", "8"))
+W = int(os.environ.get("VERIF_TLC_WORKERS", "8"))     # per TLC process; two processes run side by side
+HEAP = os.environ.get("VERIF_TLC_HEAP", "4g")
 
 # actions that cannot fire in a given run by construction (not vacuity)
 COVERAGE_EXEMPT = {"Resume", "Seg", "Observe", "MainEmpty", "Finished"}
@@ -62,7 +63,7 @@ def sorted_copy(ctx, src, name):
 
 
 def model_check(ctx, cfg, timeout, coverage=False):
-    r = ctx.tlc("batch", "Batch", cfg=cfg + ".cfg", workers=W, timeout=timeout, coverage=coverage)
+    r = ctx.tlc("batch", "Batch", cfg=cfg + ".cfg", workers=W, timeout=timeout, coverage=coverage, heap=HEAP)
     ctx.require_tlc_ok(r, cfg)
     if coverage:
         zero = sorted(set(r.coverage_zero) - COVERAGE_EXEMPT)
@@ -73,7 +74,7 @@ def model_check(ctx, cfg, timeout, coverage=False):
 
 def as_code_must_hang(ctx, cfg, expect):
     """The model of the pinned code (no step that returns for an empty key list) must violate the property in TLC."""
-    r = ctx.tlc("batch", "Batch", cfg=cfg + ".cfg", workers=2, timeout=300, count=False)
+    r = ctx.tlc("batch", "Batch", cfg=cfg + ".cfg", workers=2, timeout=300, count=False, heap="1g")
     if r.timed_out or r.error:
         incon("%s: TLC failed: %s" % (cfg, r.error or "timeout"))
     if r.violated != expect:
@@ -82,19 +83,47 @@ def as_code_must_hang(ctx, cfg, expect):
     return "".join(r.trace)[-1200:]
 
 
-def gen_and_replay(ctx, cfg, label, timeout, variants=1, corrupt=0):
-    r = ctx.tlc("batch", "Batch", cfg=cfg + ".cfg", workers=W, timeout=timeout)
+class SpecStream(threading.Thread):
+    """Model-checking runs (module Batch) proceed next to the generator / replay runs (modules BatchGen, BatchTrace:
+    their scratch directories carry the module name, so the two streams never share one)."""
+
+    def __init__(self, ctx, quick):
+        super().__init__(daemon=True)
+        self.ctx, self.quick, self.exc, self.f1_trace = ctx, quick, None, ""
+
+    def run(self):
+        ctx, quick = self.ctx, self.quick
+        try:
+            # the model of the pinned code deadlocks on an empty key list (F1); kept as the explanation of that disagreement class
+            self.f1_trace = as_code_must_hang(ctx, "MC_ascode_empty", "Deadlock")
+            fine = ["MC_fine_q1", "MC_fine_q2"] if quick else \
+                   ["MC_fine_q1", "MC_fine_q2", "MC_fine_t1", "MC_fine_t2", "MC_fine_t3", "MC_fine_t4"]
+            for cfg in fine:
+                model_check(ctx, cfg, 300 if quick else 2400, coverage=(not quick and cfg == "MC_fine_t1"))
+            model_check(ctx, "MC_live_q" if quick else "MC_live_t", 300 if quick else 1800)
+            model_check(ctx, "MC_coarse_q" if quick else "MC_coarse_t", 300 if quick else 1800)
+            if not quick:
+                as_code_must_hang(ctx, "MC_ascode_nohang", "NoHang")
+        except BaseException as ex:   # re-raised in the main thread
+            self.exc = ex
+
+
+def generate(ctx, cfg, timeout):
+    r = ctx.tlc("batch", "BatchGen", cfg=cfg + ".cfg", workers=W, timeout=timeout, heap=HEAP)
     ctx.require_tlc_ok(r, cfg)
     if r.emitted == 0:
         incon("%s emitted no behaviours" % cfg)
-    path, n = sorted_copy(ctx, r.out_path, cfg + ".sorted.ndjson")
-    env = {"VERIF_IN": path, "VERIF_VARIANTS": variants}
+    return sorted_copy(ctx, r.out_path, cfg + ".sorted.ndjson")
+
+
+def replay(ctx, paths, n, timeout, variants=1, corrupt=0, real_every=4):
+    env = {"VERIF_IN": ",".join(paths), "VERIF_VARIANTS": variants, "VERIF_REAL_EVERY": real_every}
     if corrupt:
         env["VERIF_CORRUPT"] = corrupt
     res = ctx.run_harness("c10", "^TestReplay$", env=env, timeout=timeout)
     if res.get("cases") != n:
-        incon("%s: harness replayed %s of %d behaviours" % (cfg, res.get("cases"), n))
-    return path, n, res
+        incon("harness replayed %s of %d behaviours" % (res.get("cases"), n))
+    return res
 
 
 def race_and_validate(ctx, behaviours, ntraces, timeout, corrupt=0):
@@ -106,7 +135,7 @@ def race_and_validate(ctx, behaviours, ntraces, timeout, corrupt=0):
     traces = verif.read_ndjson(trace)
     if not traces or len(traces) != res.get("cases"):
         incon("TestRace recorded %d traces, reported %s" % (len(traces), res.get("cases")))
-    r = ctx.tlc("batch", "BatchTrace", cfg="BatchTrace.cfg", workers=W, timeout=timeout, deadlock=False,
+    r = ctx.tlc("batch", "BatchTrace", cfg="BatchTrace.cfg", workers=W, timeout=timeout, deadlock=False, heap=HEAP,
                 extra_files={trace: "trace.ndjson"})
     ctx.require_tlc_ok(r, "trace validation")
     accepted, reached = set(), {}
@@ -148,40 +177,39 @@ def run(ctx):
     ctx.exhaustive = True
     corrupt = int(os.environ.get("VERIF_C10_CORRUPT", "0"))   # development self-test: falsify an expected output / a logged field
 
-    # 1. the property on the specification
-    fine = ["MC_fine_q1", "MC_fine_q2"] if quick else ["MC_fine_q1", "MC_fine_q2", "MC_fine_t1", "MC_fine_t2", "MC_fine_t3", "MC_fine_t4"]
-    for i, cfg in enumerate(fine):
-        model_check(ctx, cfg, 300 if quick else 2400, coverage=(not quick and cfg == "MC_fine_t1"))
-    model_check(ctx, "MC_live_q" if quick else "MC_live_t", 300 if quick else 1800)
-    model_check(ctx, "MC_coarse_q" if quick else "MC_coarse_t", 300 if quick else 1800)
+    # 1.+2. the property on the specification, and the deadlock of the model of the pinned code - next to 3. and 4.
+    specs = SpecStream(ctx, quick)
+    specs.start()
+    try:
+        # 3. spec -> code
+        call_path, n_call = generate(ctx, "MC_gen_call_q", 900)
+        hook_path, n_hook = generate(ctx, "MC_gen_hook_q", 900)
+        res = replay(ctx, [call_path, hook_path], n_call + n_hook, 1200, variants=1 if quick else 3, corrupt=corrupt,
+                     real_every=4 if quick else 1)
+        f1 = [m for m in res.get("mismatches") or [] if m.get("sig") == "empty-keys:never-returns"]
+        if f1:
+            specs.join()            # the explanation comes from the model of the pinned code
+            for m in f1:
+                m["spec_counterexample"] = ("TLC on the model of the pinned code (MC_ascode_empty.cfg, EmptyFix = FALSE): "
+                                            "Deadlock reached: " + specs.f1_trace)
+        ctx.absorb(res, "replay (grain call: one step per returning replica call; grain hook: one step per stretch between yield points)")
+        if not quick:
+            p1, n1 = generate(ctx, "MC_gen_call_t", 2400)
+            p2, n2 = generate(ctx, "MC_gen_hook_t", 2400)
+            res = replay(ctx, [p1, p2], n1 + n2, 2400, real_every=1)
+            ctx.absorb(res, "replay (thorough universe)")
+            n_call, n_hook = n_call + n1, n_hook + n2
+        ctx.extra["behaviours_grain_call"] = n_call
+        ctx.extra["behaviours_grain_hook"] = n_hook
 
-    # 2. the model of the pinned code deadlocks on an empty key list (F1); kept as the explanation of that disagreement class
-    f1_trace = as_code_must_hang(ctx, "MC_ascode_empty", "Deadlock")
-    if not quick:
-        as_code_must_hang(ctx, "MC_ascode_nohang", "NoHang")
-
-    # 3. spec -> code
-    call_path, n_call, res = gen_and_replay(ctx, "MC_gen_call_q", "call", 600, variants=1 if quick else 3, corrupt=corrupt)
-    for m in res.get("mismatches") or []:
-        if m.get("sig") == "empty-keys:never-returns":
-            m["spec_counterexample"] = "TLC, model of the pinned code (MC_ascode_empty.cfg, EmptyFix = FALSE): Deadlock reached: " + f1_trace
-    ctx.absorb(res, "replay grain=call")
-    _, n_hook, res = gen_and_replay(ctx, "MC_gen_hook_q", "hook", 600)
-    ctx.absorb(res, "replay grain=hook")
-    if not quick:
-        _, n, res = gen_and_replay(ctx, "MC_gen_call_t", "call", 2400)
-        ctx.absorb(res, "replay grain=call (thorough universe)")
-        n_call += n
-        _, n, res = gen_and_replay(ctx, "MC_gen_hook_t", "hook", 2400)
-        ctx.absorb(res, "replay grain=hook (thorough universe)")
-        n_hook += n
-    ctx.extra["behaviours_grain_call"] = n_call
-    ctx.extra["behaviours_grain_hook"] = n_hook
-
-    # 4. code -> spec
-    res, ntr, nrej = race_and_validate(ctx, call_path, 100 if quick else 600, 900 if quick else 2400,
-                                       corrupt=(3 if corrupt else 0))
-    ctx.absorb(res, "race traces validated by BatchTrace.tla")
-    ctx.extra["race_traces"] = ntr
-    ctx.extra["race_traces_rejected"] = nrej
+        # 4. code -> spec
+        res, ntr, nrej = race_and_validate(ctx, call_path, 100 if quick else 600, 900 if quick else 2400,
+                                           corrupt=(3 if corrupt else 0))
+        ctx.absorb(res, "race traces validated by BatchTrace.tla")
+        ctx.extra["race_traces"] = ntr
+        ctx.extra["race_traces_rejected"] = nrej
+    finally:
+        specs.join()
+    if specs.exc is not None:
+        raise specs.exc
     return "model_checking"
